@@ -22,10 +22,10 @@ Proof. exact first_request_answered. Qed.
 Print Assumptions one_response_first_request.
 
 (* "the ping that follows is answered with a byte-identical payload and the connection is closed":
-   a ping reaching an open connection is answered by exactly [echo of the same bytes; close] and
+   a well-formed ping (body of 8 bytes or more) reaching an open connection is answered by exactly [echo of the same bytes; close] and
    nothing is emitted afterwards, whatever else the client sends. *)
 Theorem echo_identical : forall adv online pre p post,
-  closed (final adv online pre) = false -> p <> [] ->
+  closed (final adv online pre) = false -> (8 <= length p)%nat ->
   exists rest, outs adv online (pre ++ Ping p :: post) = outs adv online pre ++ [OEcho p; OClose] :: rest
             /\ concat rest = [].
 Proof. exact Proofs.C43.echo_identical. Qed.
@@ -67,21 +67,28 @@ Theorem advertised_protocol : forall sup p online pre post,
 Proof. exact advertised_protocol_spec. Qed.
 Print Assumptions advertised_protocol.
 
-(* The code (impl_advertised: decoder-registry fallback to the OLDEST version, then the
-   "not Unknown" test) agrees with the demanded behaviour for every supported protocol ... *)
-Theorem advertised_protocol_impl_eq_spec_off_trigger : forall sup p,
-  ~ In (-1) sup -> trigger_unsupported sup p = false -> impl_advertised sup p = spec_advertised sup p.
-Proof. exact impl_eq_spec_off_trigger. Qed.
-Print Assumptions advertised_protocol_impl_eq_spec_off_trigger.
+(* The code (impl_advertised: handshake protocol looked up in ProtocolToVersion, else MaximumVersion)
+   makes exactly the demanded choice, for every protocol number. *)
+Theorem advertised_protocol_impl_eq_spec : forall sup p, impl_advertised sup p = spec_advertised sup p.
+Proof. exact impl_eq_spec. Qed.
+Print Assumptions advertised_protocol_impl_eq_spec.
 
-(* ... and is refuted off it (finding C43-1): for gate's version list and protocol 999999 the code
-   advertises 4 instead of 776, and the property predicate is false on that output. *)
-Theorem advertised_protocol_refuted :
+(* HISTORICAL, about the code BEFORE fix c892351 (finding C43-1, fixed): the old choice
+   (decoder-registry fallback to the oldest version, then the "not Unknown" test) agreed with the
+   demanded one for supported protocols ... *)
+Theorem prefix_advertised_protocol_eq_spec_off_trigger : forall sup p,
+  ~ In (-1) sup -> trigger_unsupported sup p = false -> prefix_impl_advertised sup p = spec_advertised sup p.
+Proof. exact prefix_impl_eq_spec_off_trigger. Qed.
+Print Assumptions prefix_advertised_protocol_eq_spec_off_trigger.
+
+(* ... and was refuted otherwise: for gate's version list and protocol 999999 it advertised 4
+   instead of 776, and the property predicate is false on that output. *)
+Theorem prefix_advertised_protocol_refuted :
   exists sup p, trigger_unsupported sup p = true /\
-    impl_advertised sup p <> spec_advertised sup p /\
-    holds_C43 (spec_advertised sup p) 0 [Req] (outs (impl_advertised sup p) 0 [Req]) = false.
-Proof. exact advertised_refuted. Qed.
-Print Assumptions advertised_protocol_refuted.
+    prefix_impl_advertised sup p <> spec_advertised sup p /\
+    holds_C43 (spec_advertised sup p) 0 [Req] (outs (prefix_impl_advertised sup p) 0 [Req]) = false.
+Proof. exact prefix_advertised_refuted. Qed.
+Print Assumptions prefix_advertised_protocol_refuted.
 
 (* the model with the demanded protocol satisfies the judge's property predicate on every sequence *)
 Theorem spec_satisfies_predicate : forall want online ops, holds_C43 want online ops (outs want online ops) = true.
@@ -95,5 +102,5 @@ Example C43_nonvacuous :
   quiet [Empty; Empty] = true /\
   closing (final 763 2 [Req]) Req = true /\ closed (final 763 2 [Req]) = false /\
   spec_advertised gate_supported 763 = 763 /\ spec_advertised gate_supported 999999 = 776 /\
-  impl_advertised gate_supported 999999 = 4.
+  impl_advertised gate_supported 999999 = 776 /\ prefix_impl_advertised gate_supported 999999 = 4.
 Proof. exact c43_example. Qed.
